@@ -28,3 +28,26 @@ Definition check_status (c : status_case) : bool :=
   let sm' := drift_summary rep in
   items_eqb rep ob && (s_modified sm' =? sm) && (s_missing sm' =? smi) && (s_extra sm' =? se)
   && Bool.eqb (needs_deploy_apply f roots D) nd.
+
+(* ---- status --only <kinds>: the filtered report with all its summaries (Model/Status.v status_cmd) ---- *)
+Definition kind_of_code (k : N) : dkind := if k =? 0 then DModified else if k =? 1 then DMissing else DExtra.
+Definition sum_eqb (s : dsummary) (o : N * N * N) : bool :=
+  let '(a, b, c) := o in (s_modified s =? a) && (s_missing s =? b) && (s_extra s =? c).
+Definition byroot_matches (m : group_key * dsummary) (o : str * option str * (N * N * N)) : bool :=
+  let '(t, rt, s) := o in gk_eqb (fst m) (t, option_map P rt) && sum_eqb (snd m) s.
+Definition status_only_case :=
+  (list (str * fobj) * list root * list dfile * list N * list obs_item * (N * N * N)
+   * list (str * option str * (N * N * N)) * option (N * N * N))%type.
+Definition check_status_only (c : status_only_case) : bool :=
+  let '(disk, roots, D, only, ob, sm, byroot, total) := c in
+  let f := mkfs disk in
+  let U := map (fun e => P (fst e)) disk in
+  let o := status_cmd (map kind_of_code only) f U roots D in
+  items_eqb (so_drift o) ob && sum_eqb (so_summary o) sm
+  && forallb (fun m => existsb (byroot_matches m) byroot) (so_by_root o)
+  && Nat.eqb (length (so_by_root o)) (length byroot)
+  && match so_total o, total with
+     | Some s, Some t => sum_eqb s t
+     | None, None => true
+     | _, _ => false
+     end.
